@@ -182,6 +182,17 @@ pub fn create_autoalloc_service(
     (service, process)
 }
 
+/// Verification hook: a service whose messages are handed to the caller instead of the autoalloc process
+/// (what `tests::test_alloc_service` does for the unit tests).
+#[cfg(it4innovations_hyperqueue_verif)]
+pub(crate) fn verif_alloc_service() -> (
+    AutoAllocService,
+    crate::common::rpc::RpcReceiver<AutoAllocMessage>,
+) {
+    let (tx, rx) = make_rpc_queue();
+    (AutoAllocService { sender: tx }, rx)
+}
+
 #[cfg(test)]
 pub(crate) mod tests {
     use crate::common::rpc::{RpcReceiver, make_rpc_queue};
